@@ -52,7 +52,12 @@ def gen_map(rnd):
             prog.append(["reg", DREGS[rnd.randrange(6)], gen_exp(rnd, rnd.randrange(0, 3))])
         elif c < 0.88:
             pr = PREGS[rnd.randrange(2)]
-            if rnd.random() < 0.5:
+            prev = [i_ for i_ in prog if i_[0] == "mem"]
+            if prev and rnd.random() < 0.25:
+                # the same cell again with another width (narrower after wider and the reverse)
+                o_ = prev[rnd.randrange(len(prev))]
+                prog.append(["mem", o_[1], o_[2], gen_exp(rnd, rnd.randrange(0, 3)), [8, 16, 32][rnd.randrange(3)]])
+            elif rnd.random() < 0.5:
                 prog.append(["mem", pr, [0, 4, 8][rnd.randrange(3 if pr == "p" else 2)], gen_exp(rnd, rnd.randrange(0, 3)), 32])
             else:
                 # cells of mixed sizes at arbitrary offsets: overlapping ranges under different keys
